@@ -1,0 +1,9 @@
+//go:build !verif
+
+// Package verifhook provides instrumentation points for the external
+// verification harness. Without the "verif" build tag every hook is an
+// empty function that the compiler inlines away.
+package verifhook
+
+// At marks a named site in the code.
+func At(site string) {}
